@@ -6,6 +6,7 @@ C25 checker.
 event stream over a token-gated recording client (hook constructor, real 512-slot channel):
   `es <filterhex> <seq>`            → `ok`
   `ev <kind> <namehex|-> <id>`      → `buf=<len(eventCh)> fl=<1 if the goroutine holds an event in Send>`
+  `halt`                            → Stop() while the case goes on dispatching events → `ok`
   `rel <k>`                         → the records the client received now, `seq:kind:namehex:id+…`
   `stop`                            → Stop() + drain: the remaining records
 query stream over a hand-fed QueryResponse (timing free → not compared, monitor only):
@@ -24,7 +25,7 @@ stream's sequence number) and judges the implementation's records against them.
 namespace SerfModel.Check.C25
 open SerfModel SerfModel.Check SerfModel.IpcStreams
 
-def chanCap : Nat := 512
+def chanCap : Nat := ipcChanCap
 
 structure St where
   filter : String := ""
@@ -35,6 +36,7 @@ structure St where
   released : Nat := 0
   fed : List Ev := []
   got : List Ev := []
+  halted : Bool := false
   qseq : Nat := 0
   qacks : List String := []
   qresps : List (String × String) := []
@@ -154,11 +156,14 @@ def step (s : St) (op : List String) (impl : String) : LineOut St :=
     match (if n == "-" then some "" else stringOfHex? n), i.toNat? with
     | some nm, some id =>
       let e : Ev := { kind := k, name := nm, id := id }
-      let s1 := pickUp { s with es := esStep s.fs chanCap s.es (.arrive e), fed := s.fed ++ [e] }
+      let s1 := pickUp { s with es := esStep s.fs chanCap s.es (.arrive e), fed := if s.halted then s.fed else s.fed ++ [e] }
       { state := s1, model := some s!"buf={s1.es.buf.length} fl={s1.held}",
         monitor := if impl.startsWith "TIMEOUT" && specWanted s.filter e then
             some ("stream-missing", s!"an event matching the filter never reached the client of an idle stream: {impl}") else none }
     | _, _ => { state := s, model := some "bad-op" }
+  | ["halt"] =>
+    -- Stop() while events keep being dispatched: from now on nothing is owed and nothing may enter
+    { state := { s with es := esStep s.fs chanCap s.es .stop, halted := true }, model := some "ok" }
   | ["rel", k] =>
     match k.toNat? with
     | some n =>
